@@ -510,6 +510,13 @@ Definition simulate (keep : option nat) (t : list tev) : conn :=
 
 (* property predicate on the implementation's own output: the frames completely written by the
    mock for stream s while request r held it *)
+(* the complete frames at the front of one written chunk (a chunk may hold several frames) *)
+Fixpoint frames_of (fuel : nat) (bs : list N) : list frame :=
+  match fuel with
+  | O => []
+  | S k => match parse_frame bs with Got f rest => f :: frames_of k rest | _ => [] end
+  end.
+
 Fixpoint sent_for (s r : N) (armed : bool) (t : list tev) : list (list N) :=
   match t with
   | [] => []
@@ -517,10 +524,7 @@ Fixpoint sent_for (s r : N) (armed : bool) (t : list tev) : list (list N) :=
       if s' =? s then sent_for s r (r' =? r) t' else sent_for s r armed t'
   | TOut bs :: t' =>
       if armed then
-        match parse_frame bs with
-        | Got f [] => if f_stream f =? s then f_body f :: sent_for s r armed t' else sent_for s r armed t'
-        | _ => sent_for s r armed t'
-        end
+        map f_body (filter (fun f => f_stream f =? s) (frames_of (List.length bs) bs)) ++ sent_for s r armed t'
       else sent_for s r armed t'
   | _ :: t' => sent_for s r armed t'
   end.
